@@ -29,7 +29,7 @@ ASSUMPTIONS = [
 ]
 BOUNDS = {'quick': dict(k='0..2', solvers='NM dim<=2, Powell dim 1, DE/DE2 NP=4 dim 1', paths='save file, SetSaveFrequency dump, dill.copy, deepcopy'),
           'thorough': dict(k='0..3', solvers='NM dim<=2, Powell dim<=2, DE/DE2 NP=4 dim<=2', paths='save file, SetSaveFrequency dump, dill.copy, deepcopy')}
-BUDGET = {'quick': 500, 'thorough': 3600}
+BUDGET = {'quick': 500, 'thorough': 5400}
 
 CURRENT = {}
 
@@ -239,6 +239,8 @@ def instances(tier, seed):
                                 continue
                             if kind.startswith('DE') and (k == 2 or (k == 1 and cfg != 'plain')):
                                 continue
+                            if cfg == 'box+cons+pen' and k == 2 and path not in (('save', 'frequency') if kind == 'Powell' else ('save', 'deepcopy')):
+                                continue        # (the most expensive cells: two restore paths each)
                             grid.append((kind, dim, cfg, k, path))
     for kind, dim, cfg, k, path in grid:
         out.append(Instance('resume/%s/dim=%d/%s/after-gen=%d/%s' % (kind, dim, cfg, k, path), resume(kind, dim, cfg, k, path), qtimeout=6000))
